@@ -11,13 +11,13 @@ recorded and decided by TLC the same way."""
 from __future__ import annotations
 
 import inspect
-import json
 import textwrap
 
 import numpy as np
 import pandas as pd
 
 from ..core import MachineryError
+from ..divisions import Verdicts as _Verdicts
 from ..frameobs import plain, rank_map, time_limit, to_rank
 from ..frames import dd, from_parts, is_shim_error, partitions_of, split_rows
 from ..par import pmap
@@ -205,47 +205,11 @@ def classify(rec, clauses):
     return "quantiles:%s:%s" % (rec.get("layer", "?"), cl)
 
 
-def _clauses(text):
-    return [c for c in CLAUSE_ORDER + ["UnknownOp"] if '"%s"' % c in text]
-
-
 JUDGED = ("op", "seq", "mode", "k", "raised", "divs", "locs", "data")     # the fields TLC sees
 
 
-class Verdicts:
-    """Collects call records and lets ONE TLC run decide them.  Records with identical judged fields
-    (same call, same result - e.g. the same case under another index dtype) share one verdict; only
-    the first two members of each class are kept (memory), the rest are counted."""
-
-    def __init__(self):
-        self.uniq, self.members, self.n = {}, {}, 0
-
-    def add(self, recs):
-        for r in recs:
-            self.n += 1
-            key = json.dumps({k: r[k] for k in JUDGED if k in r}, sort_keys=True)
-            if key not in self.uniq:
-                self.uniq[key] = "u%d" % len(self.uniq)
-            m = self.members.setdefault(self.uniq[key], [0, []])
-            m[0] += 1
-            if len(m[1]) < 2:
-                m[1].append(r)
-
-    def decide(self, ctx, label):
-        """-> [(record, clauses, multiplicity)] for the rejected classes (one entry per kept member)."""
-        if not self.uniq:
-            return []
-        spec, cfg = ctx.model(ctx.spec("frame", "DivisionsTrace.tla"), {})
-        ulist = [dict(json.loads(key), id=uid) for key, uid in self.uniq.items()]
-        bad = []
-        for lo in range(0, len(ulist), 25000):
-            rej = ctx.tlc_validate(spec, ulist[lo:lo + 25000], cfg, label=label, timeout=1800)
-            for uid, texts in rej.items():
-                cnt, kept = self.members[uid]
-                for j, r in enumerate(kept):
-                    bad.append((r, _clauses(" ".join(texts)), 1 if j else cnt - len(kept) + 1))
-        ctx.traces += self.n - len(ulist)      # identical call records share one TLC verdict
-        return bad
+def Verdicts():
+    return _Verdicts(JUDGED, CLAUSE_ORDER)
 
 
 def decide(ctx, recs, label):
